@@ -2208,6 +2208,15 @@ impl TieredEngine {
         if let Some(coherence) = coherence {
             self.hot_tier
                 .insert_with_coherence(doc_id, embedding.clone(), metadata, coherence);
+            // A delete (or a newer write) may have landed between the token read and the mirror
+            // insert. Its own mirror removal then ran BEFORE this mirror was published, so the
+            // mirror would outlive the canonical record it copies, reads would (rightly) ignore
+            // it, and the next drain would find "mirror without canonical record" and write the
+            // deleted document back into the cold tier. Take the mirror back if the canonical
+            // record no longer carries the token it was published under.
+            if self.cold_tier.current_coherence_token(doc_id) != Some(coherence) {
+                self.hot_tier.remove_if_coherence(doc_id, &coherence);
+            }
         }
 
         // Invalidate only after every tier reflects the write. The invalidation bumps the
